@@ -3,10 +3,13 @@ import conn_checks
 import write_checks
 import chain_checks
 import server_checks
+import envelope_checks
 
 CHECKS = {
     "C01": (conn_checks.c01, conn_checks.replay_framing),
     "C02": (write_checks.c02, write_checks.replay_writing),
+    "C04": (envelope_checks.c04, envelope_checks.replay_case),
+    "C05": (envelope_checks.c05, envelope_checks.replay_case),
     "C06": (chain_checks.c06, chain_checks.replay_chain),
     "C07": (conn_checks.c07, conn_checks.replay_framing),
     "C08": (server_checks.c08, server_checks.replay_server),
